@@ -30,6 +30,10 @@ extern unsigned long xv_g, xv_n, xv_k, xv_m;   /* xv_n, xv_k, xv_m: further ghos
 #define XV_MAXLEN 1000000ul
 #endif
 
+/* strlen / char_traits::length: a plain loop (CBMC's library body is linked after the contract instrumentation and cannot be bounded
+   there); units that reach it unwind it to the capacity of the buffer with unwinding assertions */
+static inline unsigned long xv_strlen(const char* p) { unsigned long n = 0; while (p[n] != 0) { ++n; } return n; }
+
 /* std::string storage model */
 typedef struct { char* data; unsigned long size; } xv_str;
 #define XV_STR_CAP (2 * XV_MAXLEN + 16)
